@@ -17,7 +17,18 @@ import traceback
 
 import numpy as np
 
-REPO_PREFIX = "/repo/quimb/"
+def _repo_prefix():
+    """Directory of the quimb package under test (normally /repo/quimb/; a
+    background soak may point PYTHONPATH at a snapshot copy of /repo)."""
+    import importlib.util
+
+    spec = importlib.util.find_spec("quimb")
+    return os.path.dirname(spec.origin) + "/"
+
+
+import os  # noqa: E402
+
+REPO_PREFIX = _repo_prefix()
 
 
 # --------------------------------------------------------------------------- #
